@@ -293,9 +293,6 @@ def check_case(case, col=None, logs=None):
                 if th.is_alive():
                     raise Violation('interact-did-not-return', 'interact() did not return within 15 s after the child exited')
             drain(um, seen, 0.05)
-            # the session is over: what the logs hold now is what interact() logged
-            for name in list(reclogs):
-                setattr(child, name, None)
             if 'exc' in result:
                 e = result['exc']
                 from ..common import innermost_pexpect_frame
@@ -345,6 +342,9 @@ def check_case(case, col=None, logs=None):
                                     % (len(got_all), len(all_out), k, got_all[k:k + 20], all_out[k:k + 20]))
                 if termios.tcgetattr(us) != mode_before:
                     raise Violation('terminal-mode-not-restored', 'terminal mode differs after the second interact()')
+            # the sessions are over: what the logs hold now is what interact() logged
+            for name in list(reclogs):
+                setattr(child, name, None)
             # what the child got
             if esc_hit and not (case['child_exits'] and False):
                 try:
